@@ -1,6 +1,7 @@
 package main
 
 import (
+	"fmt"
 	"encoding/json"
 	"math/rand"
 	"time"
@@ -150,6 +151,16 @@ func (famDecoder) Exec(scn int, raw json.RawMessage, t *Trace, _ map[string]stri
 	ctrs := []FakeCtr{ctr}
 	if in.Beside {
 		other := []Frame{{Typ: 1, TS: []int{1700000000, 5}, Msg: B("other-1")}, {Typ: 2, TS: []int{1700000400, 0}, Msg: B("other-2")}}
+		if scn%4 >= 2 {
+			// the healthy container logs at the very instants of the observed one (every second frame): a tie between two
+			// containers costs neither of them a record
+			other = other[:1]
+			for j, f := range in.Frames {
+				if j%2 == 1 && len(f.TS) == 2 && (f.TS[0] > 1700000000 || f.TS[1] > 5) {
+					other = append(other, Frame{Typ: 1, TS: []int{f.TS[0], f.TS[1]}, Msg: B(fmt.Sprintf("other-t%d", j))})
+				}
+			}
+		}
 		if scn%2 == 0 {
 			ctrs = append(ctrs, simpleCtr("c2", "c2", other))
 		} else {
